@@ -81,6 +81,9 @@ type NodeSpec struct {
 	// flow
 	Start int    `json:"start,omitempty"`
 	Conns []Conn `json:"conns,omitempty"`
+	// LateConns are Connect calls made on the flow object after its first run
+	// (they take part in the routing of every later run).
+	LateConns []Conn `json:"late_conns,omitempty"`
 
 	Visits []Visit `json:"visits,omitempty"`
 }
